@@ -112,6 +112,7 @@ func ChildMain(sims map[string]SimFunc) bool {
 	}
 	runtime.GOMAXPROCS(sp.Procs)
 	debug.SetGCPercent(400)
+	debug.SetMemoryLimit(3 << 30) // soft: collect harder instead of growing without bound
 	out := &Out{Sim: sp.Sim, Faults: map[string]int{}, Probes: map[string]int{}, Extra: map[string]int64{}}
 	start := time.Now()
 	finish := func(code int) {
